@@ -8,8 +8,8 @@ CHECKS="${@:-$PROP}"
 WT=/tmp/wt_seed_$$
 git -C /repo worktree add -q "$WT" HEAD || exit 2
 if ! git -C "$WT" apply "$D/patch.diff"; then echo "PATCH DOES NOT APPLY"; git -C /repo worktree remove --force "$WT"; exit 2; fi
-echo "== demo on changed tree"; (cd /tmp && PYTHONPATH=/tmp/shim:$WT timeout 300 /venv/bin/python "$D/demo.py" "$WT" 2>&1 | grep -v "fork\|Warning" | tail -3); echo "exit=${PIPESTATUS[0]}"
-echo "== demo on /repo"; (cd /tmp && PYTHONPATH=/tmp/shim:/repo timeout 300 /venv/bin/python "$D/demo.py" /repo 2>&1 | grep -v "fork\|Warning" | tail -2); echo "exit=${PIPESTATUS[0]}"
+echo "== demo on changed tree"; (cd /tmp && PYTHONPATH=/tmp/shim:$WT timeout 300 /venv/bin/python "$D/demo.py" "$WT" > /tmp/seed_demo_$$.log 2>&1; echo "exit=$?"; grep -v "fork\|Warning" /tmp/seed_demo_$$.log | tail -3)
+echo "== demo on /repo"; (cd /tmp && PYTHONPATH=/tmp/shim:/repo timeout 300 /venv/bin/python "$D/demo.py" /repo > /tmp/seed_demo_$$.log 2>&1; echo "exit=$?"; grep -v "fork\|Warning" /tmp/seed_demo_$$.log | tail -2; rm -f /tmp/seed_demo_$$.log)
 echo "== stable tests on changed tree"
 python3 - "$WT" <<'PY'
 import json, os, subprocess, sys, tempfile, xml.etree.ElementTree as ET
